@@ -20,6 +20,8 @@ pub enum SigOp {
     Identity,
     /// same point, different projective representation: must still be accepted
     Repr,
+    /// sig + a point outside the subgroup, presented through Signature::try_from (decoder must refuse it)
+    AddTorsion,
 }
 #[derive(Copy, Clone, Debug, PartialEq, Eq, Hash, Serialize, Deserialize)]
 pub enum MsgOp {
@@ -40,6 +42,8 @@ pub enum PkOp {
     Neg,
     Identity,
     Repr,
+    /// pk + a point outside the subgroup, presented through PublicKey::try_from
+    AddTorsion,
 }
 
 #[derive(Clone, Debug, PartialEq, Eq, Hash, Serialize, Deserialize)]
@@ -187,13 +191,14 @@ impl<C: Suite> Model for M02<C> {
                     SigOp::OtherKey,
                     SigOp::Identity,
                     SigOp::Repr,
+                    SigOp::AddTorsion,
                 ] {
                     a.push(Act::Sig(o));
                 }
                 for o in self.msg_ops(st.m) {
                     a.push(Act::Msg(o));
                 }
-                for o in [PkOp::Other, PkOp::AddG, PkOp::Neg, PkOp::Identity, PkOp::Repr] {
+                for o in [PkOp::Other, PkOp::AddG, PkOp::Neg, PkOp::Identity, PkOp::Repr, PkOp::AddTorsion] {
                     a.push(Act::Pk(o));
                 }
                 for l in SCHEMES {
@@ -286,6 +291,25 @@ impl<C: Suite> Model for M02<C> {
                 SigOp::OtherKey => *sk2.sign(lscheme, msg0).unwrap().as_raw_value(),
                 SigOp::Identity => SgP::<C>::identity(),
                 SigOp::Repr => (honest + gen_s) - gen_s,
+                SigOp::AddTorsion => {
+                    // through the byte decoder: one scheme byte + compressed point
+                    let mut wire = Vec::<u8>::from(&mk_sig::<C>(st.s, honest));
+                    let tb = rf::torsion_perturbed(&wire[1..]).expect("torsion point");
+                    wire.truncate(1);
+                    wire.extend_from_slice(&tb);
+                    match guard(|| Signature::<C>::try_from(wire.as_slice())) {
+                        Ok(Ok(sg)) => *sg.as_raw_value(),
+                        Ok(Err(_)) => {
+                            o.outcome("torsion:decoder-refuses");
+                            o.outcome("dev1:reject");
+                            return;
+                        }
+                        Err(p) => {
+                            o.expect(&format!("C02:decode-panics:{}", g), false, "returns", &p);
+                            return;
+                        }
+                    }
+                }
             };
             if op != SigOp::Repr {
                 expect_accept = false;
@@ -326,6 +350,21 @@ impl<C: Suite> Model for M02<C> {
                 PkOp::Neg => -pk,
                 PkOp::Identity => PkP::<C>::identity(),
                 PkOp::Repr => (pk + gen_p) - gen_p,
+                PkOp::AddTorsion => {
+                    let tb = rf::torsion_perturbed(&pt(&pk)).expect("torsion point");
+                    match guard(|| PublicKey::<C>::try_from(tb.as_slice())) {
+                        Ok(Ok(k)) => k.0,
+                        Ok(Err(_)) => {
+                            o.outcome("torsion:decoder-refuses");
+                            o.outcome(&format!("dev{}:reject", st.devs()));
+                            return;
+                        }
+                        Err(p) => {
+                            o.expect(&format!("C02:decode-panics:{}", g), false, "returns", &p);
+                            return;
+                        }
+                    }
+                }
             };
             if op != PkOp::Repr {
                 expect_accept = false;
